@@ -3,7 +3,7 @@
    OOpen/ORead*/OFinish|OClose, the part store's miss fill = POpen/ORead*/OFinish), so "for all histories" is
    "for all interleavings of concurrent operations at that granularity".  The reference semantics
    (get_sound, part_sound: latest completed Set / inner store content, or miss) is Spec/CacheSpec.v. *)
-From Verif Require Import Bytes Codec Cache CacheSpec CacheProofs CachePartProofs.
+From Verif Require Import Bytes Codec Cache CacheSpec CacheProofs CachePartProofs CacheTxProofs.
 
 (* ---- the property for the generic cache, at full strength ---- *)
 Definition C19_get_sound_full : Prop :=
@@ -110,6 +110,57 @@ Theorem C19_fill_store_error_hangs_reader :
 Proof. vm_compute. reflexivity. Qed.
 Print Assumptions C19_fill_store_error_hangs_reader.
 
+(* ---- round 3: mutations inside a write transaction that is still open while others read (real inner stores) ----
+   Steps: TBegin, TPutTx/TDelTx (PutPart/DeletePart with the transaction), TCommit (pre-commit hooks, database commit,
+   after-commit hooks in registration order: the cache's Set/Remove happen only here), TRollback; readers outside the
+   transaction (PGet, PGetClose, ...) and inside it (PGetTx, PGetCloseTx).  Reference (Spec/CacheSpec.v, tsound): a
+   reader outside the transaction gets exactly the COMMITTED content of that moment — so never the deleted bytes after
+   a committed DeletePart, never the older bytes after a committed PutPart, the pre-transaction bytes after a rollback
+   and while the transaction is open, never bytes that were not committed under that id. *)
+Definition C19_part_sound_tx_full : Prop :=
+  forall (kd : pkind) (pl : policy) (maxpart : nat) (ik : ikind) (ops : list op) (rs : list res),
+    forallb (tx_seq_op true) ops = true ->
+    run ops (w_init_i kd pl maxpart ik) = Some rs ->
+    tsound tg0 ops rs.
+
+(* refuted for the SQL part store: a GetPart INSIDE the open write transaction sees that transaction's uncommitted
+   write, its miss fill puts those bytes into the shared cache, and they are served to everybody — also after the
+   rollback (PutPart of a new part, read inside the transaction, rollback, read: the never-committed bytes) *)
+Theorem C19_part_sound_tx_refuted : ~ C19_part_sound_tx_full.
+Proof.
+  intros H. apply dirty_unsound. apply (H PMem EvictNothing 64 ISql dirty_ops); [reflexivity | exact dirty_run].
+Qed.
+Print Assumptions C19_part_sound_tx_refuted.
+
+(* what does hold: for BOTH persistors, every policy/limit, the filesystem AND the SQL part store, and every history
+   of transaction steps and complete (or early-closed) readers OUTSIDE the transaction — before the commit, after
+   it, after a rollback, two transactions one after the other, put and delete of one id in one transaction, the same
+   id several times — every reader gets exactly the committed content.  For the filesystem store (whose transaction
+   writes are invisible until the commit) the same holds with readers inside the transaction as well. *)
+Theorem C19_part_sound_tx_partial :
+  forall (kd : pkind) (pl : policy) (maxpart : nat) (ik : ikind) (intx : bool) (ops : list op) (rs : list res),
+    (intx = true -> ik <> ISql) ->
+    forallb (tx_seq_op intx) ops = true ->
+    run ops (w_init_i kd pl maxpart ik) = Some rs ->
+    tsound tg0 ops rs.
+Proof.
+  intros kd pl mp ik intx ops rs Hik Ho H. eapply trun_J; [exact Ho | exact Hik | apply TJ_init | exact H].
+Qed.
+Print Assumptions C19_part_sound_tx_partial.
+
+(* the remaining window, decided by the model and replayed on the real code: a reader whose miss fill is still
+   running when the commit's after-commit hook removes the cache entry completes its fill afterwards — the bytes of
+   the part deleted by the COMMITTED transaction are served again (the transaction form of
+   C19-stale-fill-after-delete).  Not a non-overlapping history, hence outside C19_part_sound_tx_partial. *)
+Theorem C19_fill_racing_commit :
+  run [TBegin; TPutTx B"a" (content 1 10); TPutTx B"b" (content 2 8); TCommit;
+       TBegin; TDelTx B"a"; POpen 0 B"a"; ORead 0 4; TCommit; OFinish 0; PGet B"a"]
+      (w_init_i PMem (LfuKeys 1) 64 IFs)
+  = Some [ROk; ROk; ROk; ROk; ROk; ROk; ROpen B"s"; RVal (firstn 4 (content 1 10)); ROk;
+          RVal (skipn 4 (content 1 10)); RVal (content 1 10)].
+Proof. exact race_run. Qed.
+Print Assumptions C19_fill_racing_commit.
+
 (* observation (not part of the property text): the configured size limit is exceeded although satisfiable —
    limit 10, Set a(5), Set b(3), Set a(8) leaves 11 bytes stored: the eviction pops a's own old heap entry *)
 Theorem C19_size_limit_exceeded :
@@ -136,4 +187,16 @@ Example C19_ex_faults :
       (w_init PFs (LfuSize 16) 64)
   = Some [ROk; RValErr (firstn 4 (content 1 10)); RVal (content 1 10); RErr; RVal (content 1 10);
           ROk; RVal (firstn 3 (content 3 8)); RVal (content 3 8); RErr; ROk; RNotFound].
+Proof. vm_compute. reflexivity. Qed.
+
+(* non-vacuity of the transaction theorem: reads before the commit see the old bytes, after it the new ones; a rollback
+   changes nothing; put+delete of one id in one transaction; eviction forces miss fills in between *)
+Example C19_ex_tx :
+  run [TBegin; TPutTx B"a" (content 1 10); PGet B"a"; TCommit; PGet B"a";
+       TBegin; TPutTx B"a" (content 2 6); TDelTx B"b"; PGet B"a"; PGetClose B"a" 3; TRollback; PGet B"a";
+       TBegin; TPutTx B"b" (content 3 4); TDelTx B"a"; TPutTx B"a" (content 4 5); TDelTx B"b"; PGet B"a"; TCommit; PGet B"a"; PGet B"b"]
+      (w_init_i PFs (LfuKeys 1) 64 ISql)
+  = Some [ROk; ROk; RNotFound; ROk; RVal (content 1 10);
+          ROk; ROk; ROk; RVal (content 1 10); RVal (firstn 3 (content 1 10)); ROk; RVal (content 1 10);
+          ROk; ROk; ROk; ROk; ROk; RVal (content 1 10); ROk; RVal (content 4 5); RNotFound].
 Proof. vm_compute. reflexivity. Qed.
